@@ -12,11 +12,13 @@ b) inside each gate every `Some(..)` return is cut from entry by {bypass_auth tr
 c) authorisation reaches the data: every arm of dispatch_command that touches data hands auth_manager and user_id to its handler and the handler's data access is cut from its entry by
    {permission check true edge, auth manager None edge, bypass identity edge}. Arms dispatched without the user identity are violations (one key per arm).
 d) reserved identity: every constant a handler compares the user id with in order to skip a check is rejected by user_ops::validate_user_id.
+f) GRANT over several event types: the permission set stored for one event type depends only on the request and that type's existing permissions — the value handed to
+   AuthManager::grant_permission is built inside the loop iteration and does not flow from a variable that is mutated across iterations.
 e) revocation is visible to the next request: user_ops::revoke_key returns Ok only after the user cache and permission cache were updated (active = false); AuthManager::revoke_key also revokes sessions;
    grant/revoke_permission return Ok only after update_caches.
 """
-FLOOR = 12
-REQUIRED = ["C13.a", "C13.b1", "C13.b2", "C13.b3", "C13.c", "C13.d", "C13.e"]
+FLOOR = 13
+REQUIRED = ["C13.a", "C13.b1", "C13.b2", "C13.b3", "C13.c", "C13.d", "C13.e", "C13.f"]
 
 GATES = r"(tcp::listener::check_auth|http::dispatcher::check_auth_with_headers|Connection::check_auth|AuthManager::validate_session_token)(::\{closure#0\})?$"
 MAPT = re.compile(NEXT_TRANSPARENT.pattern[:-2] + r"|(std|core)::option::Option::<T>::(map|and_then))$")
@@ -467,3 +469,26 @@ def run(ctx):
         one(u, r"PermissionCache::update_user$")
         return bad
     ctx.run("C13.e", "K1 DOM", "revocation paths", "revoking a key or permission updates the caches consulted by the next request", e)
+
+
+    # ------------------------------------------------------------------ f
+    def f_(inst):
+        b = F.fn("handlers::permissions::handle")
+        gps = calls(b, r"AuthManager::grant_permission$", 2)
+        bad = []
+        for gp in gps:
+            loop = {x for x in b.live_blocks() if b.can_reach(x, gp.bb) and b.can_reach(gp.bb, x)}
+            if not loop:
+                raise AnchorMissing("loop around grant_permission at %s" % sp(b, gp.bb))
+            inst.sites.append("%s loop blocks: %d" % (sp(b, gp.bb), len(loop)))
+            S = deep_locals(b, gp.args[3])
+            for x in sorted(S):
+                ds = b.defs().get(x, [])
+                inside = [d for d in ds if d[0] in loop]
+                outside = [d for d in ds if d[0] not in loop]
+                # field-wise or whole re-assignment inside the loop of a variable that also exists before the loop
+                if inside and outside and b.local_name(x):
+                    bad.append(("grant-loop-carried:%s" % b.local_name(x), "the permission set stored for one event type flows from `%s`, which is updated inside the loop over event types: permissions leak from earlier types of the list to later ones" % b.local_name(x), None))
+        # the per-type existing permissions are looked up for the iterated type
+        return bad
+    ctx.run("C13.f", "K7 PROV (loop independence)", "handlers::permissions::handle GRANT loop", "a GRANT on several event types treats each type independently", f_)
